@@ -23,6 +23,7 @@ Definition documented_step_rules : StepRules :=                              (* 
   {| s_infer_x := SrcBatch; s_gemini_aff := SrcBatch; s_grads_x := SrcBatch |}.   (* _compute_grads(X_batch, y_pred, grads) *)
 Definition documented_fit_rules : FitRules := {|
   f_epochs := fun max_iter => max_iter;                                     (* for i in range(self.max_iter) *)
+  f_iter := IterLazy;                                                       (* for X_batch, affinity_batch in self._batchify(..) *)
   f_n_iter := fun max_iter => max_iter;                                     (* self.n_iter_ = self.max_iter *)
   f_step := documented_step_rules |}.
 Definition documented_deco_rules : DecoRules := {|
@@ -88,10 +89,12 @@ Lemma regenerated_fit_epochs : forall m, f_epochs fit_rules m = m.
 Proof. intros m. unfold fit_rules, fit_epochs. cbn [f_epochs]. reflexivity. Qed.
 Lemma regenerated_fit_n_iter : forall m, f_n_iter fit_rules m = m.
 Proof. intros m. unfold fit_rules, fit_n_iter. cbn [f_n_iter]. reflexivity. Qed.
+Lemma regenerated_fit_iterates_lazily : f_iter fit_rules = IterLazy.
+Proof. unfold fit_rules, fit_iter. cbn [f_iter]. reflexivity. Qed.
 Lemma regenerated_fit_rules_ok : fit_rules_ok fit_rules.
 Proof.
   split; [exact regenerated_fit_epochs|]. split; [exact regenerated_fit_n_iter|].
-  unfold fit_rules. cbn [f_step]. exact regenerated_fit_step_reads_batch.
+  split; [unfold fit_rules; cbn [f_step]; exact regenerated_fit_step_reads_batch | exact regenerated_fit_iterates_lazily].
 Qed.
 
 Lemma regenerated_decorate_arange : forall n, d_arange deco_rules n = n.
@@ -222,6 +225,13 @@ Proof.
   - rewrite map_map. cbn [dup4 fst snd]. apply map_id.
   - apply Forall_forall. intros p Hin. apply in_map_iff in Hin. destruct Hin as (b & <- & _).
     cbn [dup4 fst snd]. repeat split; reflexivity.
+Qed.
+
+Lemma gen_decorated_visible n bs P : 1 <= eff_bs n bs -> is_perm_of_range n (P (Z.of_nat n)) ->
+  code_decorated_visible GB deco_rules fit_rules n bs P = Some (map (fun b => (b, b)) (batches (eff_bs n bs) (P (Z.of_nat n)))).
+Proof.
+  intros. apply (code_decorated_visible_ok GB deco_rules fit_rules regenerated_batch_rules_ok regenerated_deco_rules_ok
+                   regenerated_fit_iterates_lazily); assumption.
 Qed.
 
 Lemma gen_val_blocks (T : Type) (o : NumOps T) n bs : 1 <= bs ->
